@@ -97,11 +97,11 @@ Lemma move_line S : StronglySorted klt S -> forall sel sel' lo hi xlo xhi,
   ((sel lo = true /\ sel hi = false /\ sel' lo = false /\ sel' hi = true) \/
    (sel lo = false /\ sel hi = true /\ sel' lo = true /\ sel' hi = false)) ->
   (forall x, In x S -> fst x <> lo -> fst x <> hi -> sel (fst x) = sel' (fst x)) ->
-  (forall x, In x S -> (lo < fst x)%N -> (fst x < hi)%N -> is_rule (ent x) = true -> i_act (ent x) = i_act (snd xhi)) ->
+  (is_rule (snd xhi) = true -> forall x, In x S -> (lo < fst x)%N -> (fst x < hi)%N -> is_rule (ent x) = true -> i_act (ent x) = i_act (snd xhi)) ->
   sw_equiv (R sel S) (R sel' S).
 Proof.
-  intros SS sel sel' lo hi xlo xhi Ilo Ihi LT ST CASES AG BT.
-  destruct (is_rule (snd xhi)) eqn:RU.
+  intros SS sel sel' lo hi xlo xhi Ilo Ihi LT ST CASES AG BT0.
+  destruct (is_rule (snd xhi)) eqn:RU; [pose proof (BT0 eq_refl) as BT; clear BT0|].
   2:{ (* a remark: not among the rules at all *)
     rewrite (R_ext sel sel' S); [apply sw_refl|]. intros x Hx Rx.
     destruct (N.eq_dec (fst x) lo) as [E|NL].
@@ -150,7 +150,7 @@ Definition between_ok (S : list K) (k : N) (p : nat) (b : ientry) : Prop :=
   forall x, In x S -> (N.min k (dkey p) < fst x)%N -> (fst x < N.max k (dkey p))%N -> is_rule (ent x) = true -> i_act (ent x) = i_act b.
 Definition stay_ok (S : list K) (k : N) (b : ientry) (d : dec) : Prop :=
   match d with
-  | DStay p => exists a, In (dkey p, (Drop, a)) S /\ strip a = strip b /\ between_ok S k p b
+  | DStay p => exists a, In (dkey p, (Drop, a)) S /\ strip a = strip b /\ (is_rule b = true -> between_ok S k p b)
   | _ => True
   end.
 
@@ -192,12 +192,13 @@ Proof.
         -- symmetry. exact ST.
         -- left. auto.
         -- intros x Hx N1 N2. apply AG; assumption.
-        -- intros x Hx L1 L2 Rx. rewrite ACT. apply (BT x Hx); [rewrite N.min_l by lia; exact L1 | rewrite N.max_r by lia; exact L2 | exact Rx].
+        -- intros RA x Hx L1 L2 Rx. rewrite ACT. assert (RBb : is_rule b = true) by (unfold is_rule in *; rewrite <- ACT; exact RA).
+           apply (BT RBb x Hx); [rewrite N.min_l by lia; exact L1 | rewrite N.max_r by lia; exact L2 | exact Rx].
       * apply (move_line S SS sel sel' (dkey p) k (Drop, a) (Add, b) Ia Ik GT); cbn [snd].
         -- exact ST.
         -- right. auto.
         -- intros x Hx N1 N2. apply AG; assumption.
-        -- intros x Hx L1 L2 Rx. apply (BT x Hx); [rewrite N.min_r by lia; exact L1 | rewrite N.max_l by lia; exact L2 | exact Rx].
+        -- intros RBb x Hx L1 L2 Rx. apply (BT RBb x Hx); [rewrite N.min_r by lia; exact L1 | rewrite N.max_l by lia; exact L2 | exact Rx].
     + apply IH; [exact L| |exact ND'| |exact NDS'|exact F2].
       * intros k2 b2 H. destruct (HI' k2 b2 H) as (A & B & C). split; [exact A|]. unfold sel'. rewrite B.
         replace (k2 =? k)%N with false by (symmetry; apply N.eqb_neq; exact C). reflexivity.
@@ -373,7 +374,7 @@ Qed.
 
 (* ---- the theorem, given that every suppressed move crosses only lines of its own action ---- *)
 Definition stays_between (m : script) : Prop :=
-  Forall2 (fun s d => match d with DStay p => between_ok (num m 0 0) (fst s) p (snd s) | _ => True end) (add_slots m) (diff_decs m).
+  Forall2 (fun s d => match d with DStay p => is_rule (snd s) = true -> between_ok (num m 0 0) (fst s) p (snd s) | _ => True end) (add_slots m) (diff_decs m).
 
 Theorem ios_final_equiv_cond m : nodupA m -> nodupB m -> short_runs m 0 -> stays_between m ->
   sw_equiv (rules (listB m)) (rules (final_list m)).
